@@ -545,7 +545,11 @@ int flush_message (interactive_t * ip) {
         SOCKET_SEND (ip->fd, ip->message_buf + ip->message_consumer, length, ip->out_of_band);
       if (num_bytes == -1)
         {
-          if (SOCKET_ERRNO == EWOULDBLOCK || SOCKET_ERRNO == EINTR)
+          /* ENOBUFS and ENOMEM say that the system is short of buffers at this moment, not
+           * that anything is wrong with the connection: nobody would ever report it closed,
+           * so giving it up here left a user who is still there without any output. */
+          if (SOCKET_ERRNO == EWOULDBLOCK || SOCKET_ERRNO == EINTR
+              || SOCKET_ERRNO == ENOBUFS || SOCKET_ERRNO == ENOMEM)
             {
               /* Socket would block - request write notification from async runtime */
               if (ip != all_users[0])
